@@ -517,6 +517,7 @@ type c16hInfo struct {
 }
 
 func c16hRun(c c16hCase) (*vlib.Failure, c16hInfo) {
+	defer vlib.Guard("C16", c, nil)()
 	var info c16hInfo
 	fail := c16Guard(c, "device bring-up scenario", func() *vlib.Failure { return c16hBody(c, &info) })
 	return fail, info
